@@ -34,6 +34,9 @@ class Box:
         A = 1
         B = 2
 
+    class Full(Exception):
+        """An exception class nested in a class: importable only through its owner."""
+
     def __init__(self, v=0):
         self.v = v
         self.items = []
@@ -65,6 +68,18 @@ def lst(*a):
     return [1, 2]
 
 
+def test_probe(x):
+    """Looks like a test to pytest; must not be imported by name into the test file."""
+    return x
+
+
+class TestHelper:
+    """Looks like a test class to pytest."""
+
+    def test_method(self, y):
+        return y
+
+
 def label(value=0, text="t"):
     # `text` is also a public function of this module: keyword names are not references
     return "abc"
@@ -93,6 +108,8 @@ def boom(kind, *a):
         raise decimal.InvalidOperation("d")
     if kind == "JSONDecodeError":
         raise json.JSONDecodeError("m", "doc", 0)
+    if kind == "BoxFull":
+        raise Box.Full("f")
     if kind == "SystemExit":
         sys.exit(2)
     if kind == "KeyboardInterrupt":
